@@ -1712,6 +1712,41 @@ pub unsafe extern "C" fn opendir(p: *const c_char) -> *mut libc::DIR {
     }
 }
 
+/// `fdopendir` on a traced directory descriptor starts a listing exactly like `opendir` does.
+#[no_mangle]
+pub unsafe extern "C" fn fdopendir(fd: c_int) -> *mut libc::DIR {
+    let real = real!("fdopendir", unsafe extern "C" fn(c_int) -> *mut libc::DIR);
+    match prologue(|w| {
+        let inner = w.inner.lock().unwrap();
+        let info = inner.fds.get(&fd)?;
+        if !info.is_dir {
+            return None;
+        }
+        let mut d = Desc::new("opendir", Class::Path);
+        d.path = info.path.clone();
+        d.ino = info.ino;
+        d.fd = fd;
+        Some(d)
+    }) {
+        Outcome::Pass => real(fd),
+        Outcome::Fail(w, d, idx, e) => {
+            epilogue(&w, d, idx, -1, e, true, None);
+            std::ptr::null_mut()
+        }
+        Outcome::Go(w, d, idx) => {
+            let path = d.path.clone();
+            let listing = if w.capture_listings { Some(capture_listing(&path)) } else { None };
+            let r = real(fd);
+            let e = errno();
+            if !r.is_null() {
+                w.inner.lock().unwrap().dirs.insert(r as usize, (path, fd));
+            }
+            epilogue(&w, d, idx, if r.is_null() { -1 } else { 0 }, e, false, if r.is_null() { None } else { listing });
+            r
+        }
+    }
+}
+
 #[no_mangle]
 pub unsafe extern "C" fn readdir64(dir: *mut libc::DIR) -> *mut libc::dirent64 {
     let real = real!("readdir64", unsafe extern "C" fn(*mut libc::DIR) -> *mut libc::dirent64);
@@ -1805,7 +1840,7 @@ pub const INTERPOSED: &[&str] = &[
     "open64", "open", "openat64", "openat", "close", "read", "write", "lseek64", "lseek", "ftruncate64", "ftruncate",
     "copy_file_range", "renameat2", "fsync", "fdatasync", "fchmod", "flock", "lockf", "fcntl", "fcntl64", "futimens", "utimensat",
     "statx", "chmod", "mkdir", "fchmodat", "unlink", "rmdir", "unlinkat", "rename", "renameat", "linkat", "link",
-    "symlink", "opendir", "readdir64", "readdir", "closedir", "fstatat", "fstatat64", "fstat", "fstat64", "clock_gettime", "sendfile64", "splice", "writev",
+    "symlink", "opendir", "fdopendir", "readdir64", "readdir", "closedir", "fstatat", "fstatat64", "fstat", "fstat64", "clock_gettime", "sendfile64", "splice", "writev",
 ];
 
 /// Registers a descriptor that was opened while the shim was bypassed, so that later calls on it
